@@ -365,9 +365,10 @@ class Actor:
         self.reaped = False
         self.err_delivered = 0
         self.backpressure = 0
+        self.detached = False     # closed both pipes but lives on (until the parent kills it)
 
     def can_step(self, now):
-        if not self.alive:
+        if not self.alive or self.detached:
             return False
         if self.stall_until is not None:
             if now < self.stall_until:
@@ -414,6 +415,14 @@ class Actor:
             self.s.probe('stall')
         elif tag == 'K':
             self.exit('fault-kill')
+        elif tag == 'D':
+            # the child closes its stdout and stderr (daemonises, re-points fds 1/2) but does
+            # not exit: the parent sees EOF on both pipes of a process that is still alive
+            self.out.closed_w = True
+            self.err.closed_w = True
+            self.detached = True
+            self.s.probe('child_detached')
+            self.s.log.append(('detach', self.name))
         # 'F', 'R', 'X' records carry no pipe effect
 
     def exit(self, why, status=None):
@@ -879,13 +888,19 @@ class TagStream(io.TextIOBase):
     encoding = 'utf-8'
     errors = 'strict'
 
-    def __init__(self, log, tag):
+    def __init__(self, log, tag, ascii_only=False):
         self.log, self.tag = log, tag
         self.buffer = _TagBinary(log, tag)
+        # a terminal/pipe that cannot encode everything (PYTHONIOENCODING=ascii, LANG=C)
+        self.ascii_only = ascii_only
+        if ascii_only:
+            self.encoding = 'ascii'
 
     def write(self, s):
         if not isinstance(s, str):
             raise TypeError('write() argument must be str, not %s' % type(s).__name__)
+        if self.ascii_only:
+            s.encode('ascii')        # raises UnicodeEncodeError like a strict ascii stream
         self.log.append((self.tag, s))
         return len(s)
 
@@ -1086,12 +1101,20 @@ class Env:
                 pos = e['pos'] % (len(newtape) + 1)
                 newtape.insert(pos, ('S', e['dt']))
                 self.fired.append('stall')
+            elif a == 'detach':
+                pos = e['pos'] % (len(newtape) + 1)
+                if e.get('after_report'):
+                    last = max([i for i, r_ in enumerate(newtape) if r_[0] in ('E', 'C')] or [0])
+                    pos = last + 1
+                newtape.insert(pos, ('D', None))
+                info['channel'].append(('detach', pos))
+                self.fired.append('detach')
         # completeness, uniformly for every channel fault: what reaches the pipe after the
         # child closed its stdout must begin with the whole report (trailing white space aside)
         delivered = b''
         seen_close = False
         for tag, payload in newtape:
-            if tag == 'K':
+            if tag in ('K', 'D'):
                 break
             if tag == 'C':
                 seen_close = True
@@ -1264,7 +1287,7 @@ def execute(spec, options, sched_mode=None, knobs=None, defaults=None, label='ma
     env.trace = rt.trace
     install_seams(env)
     log = []
-    out = TagStream(log, 'O')
+    out = TagStream(log, 'O', ascii_only=bool(knobs.get('parent_stdout_ascii')))
     err = TagStream(log, 'E')
     rt.orig_stdout, rt.orig_stderr = out, err
     old = sys.stdout, sys.stderr, sys.stdin
